@@ -306,15 +306,50 @@ func c30RunReaders(st *vfkit.Stats, c c30Case) string {
 			return fmt.Sprintf("Record.Value returned both an error (%v) and %d payload bytes", err, len(v))
 		}
 	}
-	// Record.ValueStream: the contract is "validated on Close": a stream read to EOF whose
-	// Close reports no error must have carried a matching blob.
-	rec2 := NewRecord(raw, nil, WithStreamFetcher(&c30Store{body: stored, err: storeErr}))
-	rd, _, err := rec2.ValueStream(ctx)
-	if err == nil {
-		got, rerr := io.ReadAll(rd)
+	// Record.ValueStream: the contract is "validated on Close". Whatever way the caller
+	// pulls the complete payload out of the stream - read to EOF, read exactly the length
+	// the stream announced, copy exactly the size the envelope declares - a Close() that
+	// reports no error means the payload in the caller's hands passed validation.
+	for _, style := range []string{"ReadAll", "ReadFull(announced length)", "CopyN(envelope size)", "small reads to announced length"} {
+		rec2 := NewRecord(raw, nil, WithStreamFetcher(&c30Store{body: stored, err: storeErr}))
+		rd, announced, err := rec2.ValueStream(ctx)
+		if err != nil {
+			continue
+		}
+		var got []byte
+		var rerr error
+		complete := true
+		switch style {
+		case "ReadAll":
+			got, rerr = io.ReadAll(rd)
+		case "ReadFull(announced length)":
+			got = make([]byte, announced)
+			_, rerr = io.ReadFull(rd, got)
+		case "CopyN(envelope size)":
+			var buf bytes.Buffer
+			_, rerr = io.CopyN(&buf, rd, env.Size)
+			got = buf.Bytes()
+			// only a copy that covers the whole stored object is "the payload"
+			complete = int64(len(got)) == int64(len(stored))
+		default:
+			got = make([]byte, 0, announced)
+			tmp := make([]byte, 3)
+			for int64(len(got)) < announced && rerr == nil {
+				want := announced - int64(len(got))
+				if want > 3 {
+					want = 3
+				}
+				var k int
+				k, rerr = rd.Read(tmp[:want])
+				got = append(got, tmp[:k]...)
+			}
+			if rerr == io.EOF {
+				rerr = nil
+			}
+		}
 		cerr := rd.Close()
-		if rerr == nil && cerr == nil {
-			if msg := check("Record.ValueStream(read to EOF, Close()==nil)", got, 0); msg != "" {
+		if rerr == nil && cerr == nil && complete {
+			if msg := check("Record.ValueStream("+style+", Close()==nil)", got, 0); msg != "" {
 				return msg
 			}
 		}
